@@ -1,7 +1,7 @@
 #!/bin/bash
 # tools/mutant.sh <patch> <check ids...> : apply a seeded change to /repo, run the quick checks, undo it.
 # Prints one line per check: <id> exit=<code> ; always restores /repo.
-P=$1; shift
+P=$(readlink -f "$1"); shift
 cd /repo || exit 2
 if ! git diff --quiet; then echo "/repo has uncommitted changes"; exit 2; fi
 if ! git apply --check "$P" 2>/dev/null; then echo "patch does not apply: $P"; exit 3; fi
